@@ -61,7 +61,7 @@ CALLS = ["greedy", "greedy_satprof", "maxwelfare", "mes", "mes_satprof", "mes_ir
          "popularity", "swc", "satprofile", "sat_calls", "stats", "jr", "priceable", "project_loss",
          "eff_support", "eff_supports", "cohesive", "validate_price", "greedy_analytics", "mes_analytics",
          "mes_skipped", "mes_skipped_plain", "phragmen_loads", "phragmen_loads_irr", "completion_phragmen",
-         "priceable_payments", "category"]
+         "priceable_payments", "category", "jr_cardinal", "cohesive_cardinal", "cardinal_stats", "raisers"]
 ENTRY = {"greedy": E_GREEDY, "greedy_satprof": E_GREEDY, "maxwelfare": E_MAXW, "mes": E_MES, "mes_satprof": E_MES,
          "mes_irr": E_MES, "mes_iter": E_MESIT, "phragmen": E_PHRAG, "phragmen_irr": E_PHRAG, "completion": E_COMPL,
          "completion_irr": E_COMPL, "increase": E_INCR, "increase_irr": E_INCR, "increase_phragmen": E_INCR,
@@ -69,7 +69,8 @@ ENTRY = {"greedy": E_GREEDY, "greedy_satprof": E_GREEDY, "maxwelfare": E_MAXW, "
          "priceable": E_RO, "project_loss": E_LOSS, "eff_support": E_EFFS, "eff_supports": E_EFFSS,
          "cohesive": E_RO, "validate_price": E_RO, "greedy_analytics": E_GREEDY, "mes_analytics": E_MES,
          "mes_skipped": E_MES, "mes_skipped_plain": E_MES, "phragmen_loads": E_PHRAG, "phragmen_loads_irr": E_PHRAG,
-         "completion_phragmen": E_COMPL, "priceable_payments": E_RO, "category": E_RO}
+         "completion_phragmen": E_COMPL, "priceable_payments": E_RO, "category": E_RO,
+         "jr_cardinal": E_RO, "cohesive_cardinal": E_RO, "cardinal_stats": E_RO, "raisers": E_RO}
 # how the shared initial allocation is built: a plain list, a BudgetAllocation without details, the outcome of an
 # earlier analytics=True run (its details object is then caller-owned state), or a BudgetAllocation with fresh
 # details of either kind
@@ -202,6 +203,16 @@ def gen(rng, i, tier):
         # payment functions / loads with tiny non-zero, negative, huge and oddly typed entries
         exo = 0.6
         calls[rng.randrange(k)] = rng.choice(["validate_price", "validate_price", "priceable_payments", "phragmen_loads"])
+    # a cardinal profile sharing the instance: ballots that score only SOME projects (the cardinal JR checkers raise
+    # KeyError on them -- an exception is no excuse for having modified the ballots), zero and negative scores
+    cballots = []
+    for _ in range(n):
+        scored = rng.sample(range(m), rng.randrange(0, m + 1)) if rng.random() < 0.75 else list(range(m))
+        cballots.append({str(j): pb.qs(rng.choice([0, 1, 1, 2, 3, Fraction(1, 2), -1 if rng.random() < 0.3 else 2]))
+                         for j in sorted(scored)})
+    if i % 5 == 4:
+        calls[rng.randrange(k)] = rng.choice(["jr_cardinal", "jr_cardinal", "cohesive_cardinal", "cardinal_stats",
+                                              "raisers"])
     if i % 5 == 3:
         calls[rng.randrange(k)] = rng.choice(["cohesive", "jr", "stats"])   # readers of the instance itself
     init_kind = rng.choice(INIT_KINDS)
@@ -228,6 +239,7 @@ def gen(rng, i, tier):
             "pay": [[pick(rng, exo) if rng.random() < 0.4 else "int:0" for _ in range(m)] for _ in range(n)],
             "vbudget": rng.choice([None, None, pick(rng, 0.5), "mpq:%s" % pb.qs(B / n), "float:%r" % float(B / n)]),
             "pinc": rng.choice(["int:1", "mpq:1/2", "int:2"]),
+            "cballots": cballots, "cmulti": rng.random() < 0.25,
             "explicit_init": rng.random() < 0.5, "explicit_res": rng.choice([None, None, True, False]),
             "solver": any(c in SOLVER_CALLS for c in calls)}
 
@@ -380,6 +392,8 @@ def build(case):
     from pabutools.rules import greedy_utilitarian_welfare as _g, sequential_phragmen as _p
     rule_seq = [method_of_equal_shares, _g]
     rule_seq2 = [method_of_equal_shares, _p]
+    cb = case.get("cballots") or [{} for _ in case["ballots"]]
+    cprof = pb.make_cardinal_profile(inst, projs, cb, bool(case.get("cmulti")))
     pm = case.get("pay", [])
     pay = [{p: (val(pm[v][j]) if v < len(pm) and j < len(pm[v]) else 0) for j, p in enumerate(projs)}
            for v in range(len(prof))]
@@ -412,11 +426,11 @@ def build(case):
     pparams.pop("sat_class", None)
     return {"inst": inst, "projs": projs, "prof": prof, "satprof": satprof, "init": init, "params": params,
             "alloc": alloc, "params_list": params_list, "pparams": pparams, "loads": loads, "rule_seq": rule_seq,
-            "rule_seq2": rule_seq2, "pay": pay, "sat": sat}
+            "rule_seq2": rule_seq2, "pay": pay, "cprof": cprof, "sat": sat}
 
 
 SHARED = ["inst", "prof", "satprof", "init", "params", "alloc", "params_list", "pparams", "loads", "rule_seq",
-          "rule_seq2", "pay"]
+          "rule_seq2", "pay", "cprof"]
 
 
 def ans(x):
@@ -440,6 +454,15 @@ def ans(x):
                                        if a not in ("details",)])
         return snapshot(v)
     return conv(x)
+
+
+def _try(f, *a, **k):
+    """the answer of a call that raises is the class of its exception (the snapshot oracle applies all the same)"""
+    try:
+        r = f(*a, **k)
+        return list(r) if hasattr(r, "__next__") else r
+    except Exception as e:  # noqa
+        return "raised " + type(e).__name__
 
 
 def _guarded(f, *a):
@@ -560,6 +583,47 @@ def do_call(name, o, case):
         return [jr.is_EJR_approval(inst, prof, sat, alloc), jr.is_PJR_approval(inst, prof, sat, alloc),
                 jr.is_EJR_one_approval(inst, prof, sat, alloc), jr.is_strong_EJR_approval(inst, prof, sat, alloc),
                 jr.is_PJR_any_approval(inst, prof, sat, alloc)]
+    if name in ("jr_cardinal", "cohesive_cardinal", "cardinal_stats", "raisers"):
+        from pabutools.election import Additive_Cardinal_Sat, Cost_Sat, Cardinality_Sat
+        from pabutools.analysis.profileproperties import votes_count_by_project as vcp
+
+        cprof = o["cprof"]
+        if name == "jr_cardinal":
+            return [_try(f, inst, cprof, alloc) for f in (
+                jr.is_strong_EJR_cardinal, jr.is_EJR_cardinal, jr.is_EJR_any_cardinal, jr.is_EJR_one_cardinal,
+                jr.is_PJR_cardinal, jr.is_PJR_any_cardinal, jr.is_PJR_one_cardinal)] + [
+                _try(jr.is_in_core, inst, cprof, Additive_Cardinal_Sat, alloc)]
+        if name == "cohesive_cardinal":
+            return [_try(lambda: len(list(coh.cohesive_groups(inst, cprof)))),
+                    _try(lambda: len(list(coh.cohesive_groups(inst, cprof, alloc))))]
+        if name == "cardinal_stats":
+            return [_try(an.avg_total_score, inst, cprof), _try(an.median_total_score, inst, cprof),
+                    _try(an.avg_ballot_length, inst, cprof), _try(an.avg_ballot_cost, inst, cprof), _try(vcp, cprof),
+                    _try(an.avg_satisfaction, inst, cprof, alloc, Additive_Cardinal_Sat),
+                    _try(an.gini_coefficient_of_satisfaction, inst, cprof, alloc, Additive_Cardinal_Sat),
+                    _try(an.percent_non_empty_handed, inst, cprof, alloc),
+                    _try(greedy_utilitarian_welfare, inst, cprof, sat_class=Additive_Cardinal_Sat,
+                         initial_budget_allocation=init),
+                    _try(method_of_equal_shares, inst, cprof, sat_class=Additive_Cardinal_Sat,
+                         initial_budget_allocation=init)]
+        # inputs on which the call is expected to raise: wrong ballot type for a measure / a rule, infeasible initial
+        # allocation, rule_params of the wrong length, colliding resoluteness
+        everything = list(o["projs"])
+        return [_try(lambda: [s_.sat(alloc) for s_ in cprof.as_sat_profile(Cardinality_Sat)]),
+                _try(lambda: [s_.sat(alloc) for s_ in prof.as_sat_profile(Additive_Cardinal_Sat)]),
+                _try(sequential_phragmen, inst, cprof, initial_budget_allocation=init),
+                _try(max_additive_utilitarian_welfare, inst, prof, sat_class=sat, initial_budget_allocation=everything,
+                     inner_algo=MaxAddUtilWelfareAlgo.PRIMAL_DUAL),
+                _try(greedy_utilitarian_welfare, inst, prof, initial_budget_allocation=everything, sat_class=sat),
+                _try(method_of_equal_shares, inst, prof, initial_budget_allocation=everything, sat_class=sat),
+                _try(completion_by_rule_combination, inst, prof, o["rule_seq"], plist[:1], initial_budget_allocation=xi),
+                _try(popularity_comparison, inst, prof, sat, o["rule_seq"], plist[:1], initial_budget_allocation=xi),
+                _try(social_welfare_comparison, inst, prof, sat, o["rule_seq"], plist[:1]),
+                _try(completion_by_rule_combination, inst, prof, o["rule_seq"],
+                     [{"sat_class": sat, "resoluteness": False}, {"sat_class": sat}], resoluteness=True),
+                _try(greedy_utilitarian_welfare, inst, prof),
+                _try(an.gini_coefficient_of_satisfaction, inst, cprof, alloc, Additive_Cardinal_Sat),
+                _try(an.validate_price_system, inst, prof, alloc, 1, o["pay"][:1])]
     if name == "category":
         return [_guarded(an.category_proportionality, inst, prof, alloc),
                 _guarded(an.category_proportionality, inst, prof, list(inst))]
